@@ -53,7 +53,8 @@ REQUIRED_LABELS = {
               "count:QAveragePooling2D", "count:GlobalAveragePooling2D",
               "count:QGlobalAveragePooling2D", "count:BatchNormalization",
               "strided", "dilated", "pad:same", "pad:valid", "pad:causal",
-              "energy_checked", "op_cost_checked", "w:dram", "w:sram", "w:fixed",
+              "energy_checked", "op_cost_checked",
+              "op_cost_checked:keras_avgpool", "w:dram", "w:sram", "w:fixed",
               "a:dram", "a:sram", "io:0", "io:1", "sum_checked", "op:mul",
               "op:shifter", "op:mux"],
 }
@@ -214,7 +215,6 @@ def oracle(ctx, case):
   nodes = case["nodes"]
   model, ins, outs, sinks = G.build_dag(case)
   src_q = G.build_q(case["src"])
-  kinds = set(n["k"] for n in nodes)
   nontrivial = False
   for n in nodes:
     if "pad" in n and n["k"] not in ("maxpool", "avgpool", "qavgpool"):
@@ -267,7 +267,6 @@ def oracle(ctx, case):
         labels.add("op:" + str(rep[name][key].get("op_type")))
 
   # (b)-(e) energy
-  has_kavg = bool(kinds & {"avgpool", "gap"})
   for opt in case["pe"]:
     labels.update(["w:" + opt["w"], "a:" + opt["a"], "io:%d" % int(opt["io"]),
                    "min_sram:%d" % opt["min_sram"]])
@@ -276,8 +275,7 @@ def oracle(ctx, case):
         en = qt.pe(weights_on_memory=opt["w"], activations_on_memory=opt["a"],
                    min_sram_size=opt["min_sram"], rd_wr_on_io=opt["io"])
     except Exception as e:  # pylint: disable=broad-except
-      sig = dict(core.exc_signature(e), has_keras_avgpool=has_kavg)
-      fails.append(("pe_raises", sig, repr(e)[:300]))
+      fails.append(("pe_raises", core.exc_signature(e), repr(e)[:300]))
       continue
     entries = []
     for i, n in enumerate(nodes):
@@ -302,6 +300,8 @@ def oracle(ctx, case):
           continue
         if key == "op_cost":
           labels.add("op_cost_checked")
+          if n["k"] in ("avgpool", "gap"):
+            labels.add("op_cost_checked:keras_avgpool")
         labels.add("energy_checked")
         if not any(_close(v, E.rounded(r)) for r in vals):
           sig = {"layer": cls, "entry": key}
@@ -454,7 +454,8 @@ def case_strategy(quick):
       n_trunk = draw(st.integers(1, 4))
       for t in range(n_trunk):
         opts = ["conv", "conv", "conv", "dw", "dw", "act", "bn", "maxpool",
-                "avgpool", "qavgpool", "qavgpool", "merge", "merge", "merge"]
+                "avgpool", "avgpool", "qavgpool", "qavgpool", "merge", "merge",
+                "merge"]
         ch = draw(st.sampled_from(opts))
         if ch == "conv":
           ks, stv, dil, pad = geometry(draw, 2, cs, ["valid", "same"])
@@ -500,7 +501,7 @@ def case_strategy(quick):
           continue
         cur = push(n, [cur], cs)
         cs = shape[cur]
-      head = draw(st.sampled_from(["gap", "qgap", "qgap", "qgap", "flatten",
+      head = draw(st.sampled_from(["gap", "gap", "qgap", "qgap", "flatten",
                                    "flatten", "flatten", "none", "none"]))
       if head != "none":
         n = {"k": head}
